@@ -21,7 +21,8 @@ func checkC09(p *load.Program, r *kit.Report) {
 		}, "MAIN-FILE-SHAPE", "MERGE-SHAPE", "CONST-TABLE")
 	r.NotDecided = "behaviour after particular consolidation/prune/reload histories (which branch object a header ends up in); the assumption that every hash left only in Repository.heights is on the best chain; equality of memory- and storage-served ranges as values."
 	r.Rule("HEIGHT-LABEL", "every hash→height label stored into Branch.heightsMap / Repository.heights equals the positional height parentHeight+offset+index of the labelled header (linear arithmetic over SSA; counters by lockstep induction; constructors summarised)", 11)
-	r.Rule("TIP-BOUND", "header(), Hash() and GetHeaders() fall back to the header files only for heights that were compared with the tip (height <= longest.Height()); stale entries above the tip are never served", 3)
+	r.Rule("NEW-STATE", "the lookups answer from the branch tree and the stored files only; a Repository field added since the reference tree that they read is rewritten after every storage write or removal", 1)
+	r.Rule("TIP-BOUND", "header(), Hash() and GetHeaders() fall back to the header files only for heights that were compared with the tip (height <= longest.Height()) and only after longest.AtHeight(height) answered nil; stale file entries are never served in place of memory", 6)
 	r.Rule("PRUNE-TRIPLE", "Prune deletes heightsMap entries of headers[:count], keeps headers[count:] and adds count to offset — the same count", 1)
 	r.Rule("SHRINK-SIBLING", "every function that re-slices Branch.headers also deletes the dropped hashes from heightsMap", 2)
 	r.Rule("FLAG-RULE", "the in-most-work-chain flag of CheckHeader/GetHeader on the in-memory arm is decided by repo.longest.AtHeight(height).Hash.Equal(&hash), never by identity of the containing branch", 2)
@@ -46,6 +47,27 @@ func checkC09(p *load.Program, r *kit.Report) {
 	checkFlagRule(p, r)
 	checkPreviousHash(p, r)
 	checkStorageReaders(p, r)
+	{
+		// lookups answer from the tree and the stored files only: state added to Repository since the
+		// reference tree that they read (a cache of a parsed file, a memo) must be rewritten after
+		// every storage write/removal
+		var readers []*ssa.Function
+		for _, n := range []string{"Repository.header", "Repository.Hash", "Repository.GetHeaders", "Repository.GetHeader", "Repository.CheckHeader", "Repository.HashHeight", "Repository.getData", "Repository.PreviousHash", "Repository.Height", "Repository.LastHash"} {
+			if f := p.Func(H, n); f != nil {
+				readers = append(readers, f)
+			}
+		}
+		checkNewState(p, r, "NEW-STATE", "Repository/derived-state", H, "Repository", readers, pkgFuncs(p, H), func(g *ssa.Function) []ssa.Instruction {
+			var out []ssa.Instruction
+			for _, c := range storageCalls(g, "Write") {
+				out = append(out, c)
+			}
+			for _, c := range storageCalls(g, "Remove") {
+				out = append(out, c)
+			}
+			return out
+		})
+	}
 	checkRepoLocks(p, r)
 }
 
@@ -365,6 +387,33 @@ func checkStorageReaders(p *load.Program, r *kit.Report) {
 					badT = "the header file is read for a height that was not compared with the tip (height <= repo.longest.Height()): above the tip the file can still hold headers that were removed from the chain: " + path
 				}
 			}
+			// MEMORY-FIRST: the file is consulted only after repo.longest.AtHeight(height) — which
+			// walks the parent branches — said the header is not in memory. Files can lag behind
+			// memory (headers accepted since the last save, a reorganised-out chain).
+			badM := ""
+			for _, c := range kit.CallsTo(f, H+".Repository.getData") {
+				call := c.(*ssa.Call)
+				var nilEdges []kit.Edge
+				for _, ac := range kit.CallsTo(f, H+".Branch.AtHeight") {
+					acall, ok := ac.(*ssa.Call)
+					if !ok || !recvIsField(acall.Call.Args[0], longestF) {
+						continue
+					}
+					for _, g := range kit.FindGuards(f, func(cv ssa.Value) (bool, bool) {
+						b, ok := cv.(*ssa.BinOp)
+						if !ok || (b.Op != token.EQL && b.Op != token.NEQ) || !kit.IsNilConst(b.Y) || kit.Strip(b.X) != ssa.Value(acall) {
+							return false, false
+						}
+						return true, b.Op == token.EQL
+					}) {
+						nilEdges = append(nilEdges, g.PassEdge())
+					}
+				}
+				if d, path := kit.DominatedByEdges(f, call, nilEdges, nil, p.Pos); !d || len(nilEdges) == 0 {
+					badM = "the header file is read although repo.longest.AtHeight(height) was not asked (or did not answer nil): a header that is in memory — in the tip branch or one of its parents — is served from a file that may be older: " + path
+				}
+			}
+			r.Check(badM == "", "TIP-BOUND", name+"/memory-first", posOf(p, f.Blocks[0].Instrs[0]), "getData only behind longest.AtHeight(height) == nil", badM)
 			r.Check(badT == "", "TIP-BOUND", name+"/storage-only-up-to-tip", posOf(p, f.Blocks[0].Instrs[0]), "getData only behind height <= longest.Height()", badT)
 		}
 		if n == 0 && bad == "" {
